@@ -58,6 +58,16 @@ def fix_char_table(F):
     return [(lo, hi, b) for lo, hi, a, b in info["rows"] if a == 1] + [(lo, hi, b - lo) for lo, hi, a, b in info["rows"] if a == 0 and lo == hi]
 
 
+def _conv_of(e):
+    """local whose char <-> u32 conversion e is, or None"""
+    e = strip(e)
+    if e.get("k") == "Call" and (declared(e) or "").endswith("From::from") and len(e["args"]) == 1 and e.get("ty") == "u32":
+        return L.local_name(e["args"][0])
+    if e.get("k") == "Cast" and e.get("ty") == "u32":
+        return L.local_name(e["e"])
+    return None
+
+
 def fix_char_shape(F):
     b = F.body(FIX)
     if b is None:
@@ -79,7 +89,9 @@ def fix_char_shape(F):
         elif i.get("k") == "Cast" and L.local_name(i["e"]) == var and i.get("ty") == "u32":
             info["in_conv"] = True
             var = s["pat"]["name"]
-        elif i.get("k") == "Match" and L.local_name(i["scrut"]) == var:
+        elif i.get("k") == "Match" and (L.local_name(i["scrut"]) == var or _conv_of(i["scrut"]) == var):
+            if _conv_of(i["scrut"]) == var:
+                info["in_conv"] = True      # `match u32::from(c) { .. }`
             mnode = i
             mvar = var
             var = s["pat"]["name"]
